@@ -125,10 +125,8 @@ func (e *Engine) dispatch(c *Config, f *Frame, rest func(c *Config)) bool {
 					nd := *f.pending
 					nd.Fn = &RefV{Alts: []RefAlt{{TS.True, a.R}}}
 					n.top().pending = &nd
-					n.top().opTag += fmt.Sprintf("%p;", a.R)
-					if _, isNil := a.R.(NilRef); isNil {
-						n.top().opTag += "nil;"
-					}
+					n.top().opTag += refIdent(a.R) + ";"
+
 					n.top().opTagBlk, n.top().opTagIdx = n.top().blk.Index, n.top().idx
 					e.enqueue(n)
 				}
@@ -158,6 +156,46 @@ func (e *Engine) dispatch(c *Config, f *Frame, rest func(c *Config)) bool {
 			return false
 		}
 		name := cm.Method.Name()
+		// the receiver inside the interface must be unique as well
+		if inner, ok := iv.V.(*RefV); ok {
+			ip := pruneRefUnder(inner, c.g)
+			if len(ip.Alts) == 0 {
+				c.g = TS.False
+				return false
+			}
+			if len(ip.Alts) > 1 {
+				for _, a := range ip.Alts {
+					n := c.clone()
+					n.g = And(c.g, a.G)
+					one := refTo(&IfaceVal{T: iv.T, V: &RefV{Alts: []RefAlt{{TS.True, a.R}}}})
+					nf := n.top()
+					tag := refIdent(a.R) + ";"
+					if nf.pending != nil {
+						nd := *nf.pending
+						nd.Fn = one
+						nf.pending = &nd
+					} else if fv, isFV := cm.Value.(*ssa.FreeVar); isFV {
+						nb := append([]Value(nil), nf.bindings...)
+						for i, x := range nf.fn.FreeVars {
+							if x == fv {
+								nb[i] = one
+							}
+						}
+						nf.bindings = nb
+					} else {
+						nf.regs[cm.Value] = one
+					}
+					nf.opTag += tag
+					nf.opTagBlk, nf.opTagIdx = nf.blk.Index, nf.idx
+					e.enqueue(n)
+				}
+				c.g = TS.False
+				return false
+			}
+			if len(ip.Alts) != len(inner.Alts) {
+				iv = &IfaceVal{T: iv.T, V: ip}
+			}
+		}
 		if m := e.modelForMethod(iv.T, name); m != nil {
 			cc.args = append([]Value{iv.V}, site.Args...)
 			return e.runModel(cc, m, typeMethodName(iv.T, name))
@@ -269,11 +307,13 @@ func (e *Engine) runModel(cc *CallCtx, m *Model, name string) bool {
 	c := cc.c
 	// method models need a unique receiver: fork on the receiver argument if necessary
 	if strings.HasPrefix(name, "(*") && len(cc.args) > 0 && cc.site.Call != nil && !cc.site.Common.IsInvoke() {
-		if rv, ok := cc.args[0].(*RefV); ok && len(pruneRefUnder(rv, c.g).Alts) > 1 && len(cc.site.Common.Args) > 0 {
+		if rv, ok := cc.args[0].(*RefV); ok && (len(rv.Alts) != 1 || !rv.Alts[0].G.IsTrue()) && len(cc.site.Common.Args) > 0 {
 			if _, isFn := cc.site.Common.Value.(*ssa.Function); isFn {
-				if _, single := e.concretizeReg(c, cc.f, cc.site.Common.Args[0]); !single {
+				one, single := e.concretizeReg(c, cc.f, cc.site.Common.Args[0])
+				if !single {
 					return false
 				}
+				cc.args[0] = one
 			}
 		}
 	}
@@ -451,8 +491,19 @@ func (e *Engine) execGo(c *Config, f *Frame, x *ssa.Go) {
 			inconclusive("go with non-unique function value")
 		}
 		fv, ok := r.Alts[0].R.(*FuncVal)
-		if !ok || fv.Model != "" {
-			inconclusive("go with nil/model function value")
+		if !ok {
+			inconclusive("go with nil function value")
+		}
+		if fv.Model != "" {
+			if len(args) != 0 {
+				inconclusive("go with a modelled function taking arguments")
+			}
+			helper := e.pkg.Func("verifCall0")
+			if helper == nil {
+				inconclusive("harness support function verifCall0 missing")
+			}
+			e.spawn(c, helper, []Value{r}, nil)
+			return
 		}
 		fn, bindings = fv.Fn, fv.Bindings
 	}
@@ -676,7 +727,6 @@ func (e *Engine) appendOp(c *Config, cc *CallCtx, s *SliceV, more Value) Value {
 			n = 1
 		}
 		arr := e.allocArray(c, elemT, n, "append")
-		storeCell(arr, zeroValue(arr.T), grow)
 		for i := 0; i < sMax; i++ {
 			gi := And(grow, Ult(BV(uint64(i), 64), s.Len))
 			if gi.IsFalse() {
